@@ -103,6 +103,12 @@ def run(fn, script, period, phase, variant="rtl", perm_seed=None, reset_midway=F
                     obs.append((idx, "tick", ctx.elapsed_time().femtoseconds, yv, rv, qv))
                 elif k == "delay":
                     await ctx.delay(Period(fs=op[1]))
+                elif k == "changed":
+                    await ctx.changed(sigs[op[1]])
+                    obs.append((idx, "fired", ctx.elapsed_time().femtoseconds, op[1], ctx.get(sigs[op[1]])))
+                elif k == "edge":
+                    await ctx.edge(sigs[op[1]], op[2])
+                    obs.append((idx, "fired", ctx.elapsed_time().femtoseconds, op[1], ctx.get(sigs[op[1]])))
         return tb
 
     # `script` is a tuple of scripts: one testbench each, added in this order
@@ -133,6 +139,6 @@ def replay_case(job):
             if [tuple(o) for o in got] != [tuple(o) for o in expected]:
                 first = next((i for i, (g, e) in enumerate(zip(got, expected)) if tuple(g) != tuple(e)), min(len(got), len(expected)))
                 out.append({"fn": fn, "variant": variant, "perm_seed": seed, "first_difference_at": first,
-                            "expected": [list(o) for o in expected], "actual": [list(o) for o in got], "script": [list(o) for o in script]})
+                            "expected": [list(o) for o in expected], "actual": [list(o) for o in got], "script": [[list(o) for o in sc] for sc in script]})
                 break
     return out
